@@ -123,6 +123,13 @@ def check(tier, seed, replay=None):
         cases += named_negated([c for c in kcases if c.get("fam") != "E"][seed % 3::3])
         cases += [{"id": f"prog{i}", "text": p} for i, p in enumerate(fmt.programs())]
         cases += [{"id": f"name{i}", "text": p} for i, p in enumerate(name_programs())]
+        # programs of spec/lin/NameGen.tla: constraints that compile to none, one or two rows under user-written names
+        # that collide with each other and with the suffixes the compiler generates (the rendered text is compiled again,
+        # which runs the naming a second time over names that already carry suffixes)
+        ng, g_, d_ = core.gen_cases(lin.SPEC_DIR, "NameGen.tla", "NameGen.cfg", "namegen", workers=4)
+        meta["NameGen"] = {"cases": len(ng), "gen_states": d_, "gen_transitions": g_}
+        kk = max(1, len(ng) // (300 if tier == "quick" else 4000))
+        cases += [{"id": f"rownames{i}", "text": c["text"]} for i, c in list(enumerate(ng))[seed % kk::kk]]
         d = core.rundir(prop)
         rp = os.path.join(d, "rand.ndjson")
     events = core.rv_parallel("render", cases, prop, procs=8)
